@@ -225,7 +225,7 @@ pub fn run_case(rec: &mut Recorder, rng: &mut Rng, which: &str, thorough: bool, 
             order.truncate(cut);
             rec.count("partial_initial_delivery");
         }
-        let pc = checks || rng.chance(1, 4);
+        let pc = rng.chance(1, 4);
         deliver(rec, rng, r, &order, pc);
         let _ = audit_take();
     }
@@ -423,7 +423,7 @@ pub fn run_case(rec: &mut Recorder, rng: &mut Rng, which: &str, thorough: bool, 
                 let miss = missing_from(&oa, &have);
                 fp.push_str(&format!("\nrelay r{a}->r{b} {}", miss.len()));
                 rec.count("relay");
-                let pc = checks || rng.chance(1, 4);
+                let pc = rng.chance(1, 4);
                 deliver(rec, rng, &mut reps[b], &miss, pc);
             }
         }
